@@ -77,6 +77,8 @@ def main():
             t = time.time()
             rc, o, e = sh([PY, "-m", f"checks.{c.lower()}", "--tier", a.tier], ROOT, env2, timeout=7200)
             keys = [l.strip()[4:].split(" cases=")[0] for l in o.splitlines() if l.startswith("  key=")]
+            if rc == 1 and "VIOLATION property=" not in o:
+                rc = 3  # the check crashed: not a detection
             det[c] = {"rc": rc, "tier": a.tier, "wall_s": round(time.time() - t, 1), "keys": keys[:8], "n_keys": len(keys)}
             print(f"{c}: rc={rc} {time.time() - t:.1f}s {keys[:3]}")
             if rc not in (0, 1):
